@@ -93,9 +93,15 @@ func init() {
 				}
 			}
 			impl := fmt.Sprintf("ran=%v read=%s outAtStart=%d outTotal=%d writesAfter=%d closed=%v", res.HijackRan, H(res.HijackRead), outAtStart, len(res.Trace.Out), writesAfter, res.Trace.Closed)
+			// model tie: the hijack flags across the requests of this connection (Model/Hijack.lean hjRun)
+			var flagArgs [][]byte
+			for i := 0; i < pre; i++ {
+				flagArgs = append(flagArgs, B(map[bool]string{true: "n--", false: "---"}[preNR]))
+			}
+			flagArgs = append(flagArgs, B(map[bool]string{true: "nh-", false: "-h-"}[noResp]))
 			_ = hjDone
-			return &Case{Impl: impl, Nontrivial: len(E) > 0, Tags: []string{split, fmt.Sprintf("rm=%v,khj=%v", cfg.ReduceMem, cfg.KeepHijacked)},
-				Judge: func([]string) Verdict {
+			return &Case{Lines: []string{Line("hjflags", flagArgs...)}, Impl: impl, Nontrivial: len(E) > 0, Tags: []string{split, fmt.Sprintf("rm=%v,khj=%v", cfg.ReduceMem, cfg.KeepHijacked)},
+				Judge: func(replies []string) Verdict {
 					desc := fmt.Sprintf("cfg=%q pre=%d pad=%d opts=%q split=%s E=%q: %s", a[0], pre, pad, opts, split, trunc(E, 60), impl)
 					if panicMsg != "" {
 						return Verdict{VSpec, "hijacked-conn-panic", desc + ": " + panicMsg}
@@ -122,6 +128,14 @@ func init() {
 					}
 					if writesAfter > 0 {
 						return Verdict{VSpec, "server-wrote-after-hijack", desc}
+					}
+					if len(replies) > 0 && replies[0] != "no-driver" {
+						// the model's verdict per request: "hs" (hijacked, response suppressed); the last one is the hijacking request
+						f := strings.Fields(replies[0])
+						obs := fmt.Sprintf("%d%d", b2iC17(res.HijackRan), b2iC17(len(codes) == pre))
+						if len(f) != pre+1 || f[len(f)-1] != obs {
+							return Verdict{VCorr, "hijack-flags", fmt.Sprintf("%s: observed (hijacked, response suppressed) = %s for the hijacking request, model %q", desc, obs, replies[0])}
+						}
 					}
 					return Ok()
 				}}
@@ -206,4 +220,11 @@ func buildHijack2(a [][]byte) *Case {
 			}
 			return Ok()
 		}}
+}
+
+func b2iC17(b bool) int {
+	if b {
+		return 1
+	}
+	return 0
 }
